@@ -40,6 +40,8 @@ var vfC11Ops = []vfC11Op{
 	{"login(basic erin, record expired)", "login", "basic-erin-expired"},
 	{"login(basic carol + response for an unknown credential method)", "login", "basic-carol-bogus"},
 	{"login(basic carol + wrong e-mail response)", "login", "basic-carol-wrongresp"},
+	{"acc(change carol's password)", "admin", "acc-other-auth"}, {"acc(suspend own account)", "admin", "acc-self-susp"},
+	{"del(user fred)", "admin", "del-other-user"},
 	{"sub(sys obo self, authlevel root)", "priv", "sub-sys-oboself"}, {"acc(new basic suspended, obo self, authlevel root)", "acc", "new-susp-oboself"},
 }
 
@@ -68,6 +70,7 @@ func vfC11Setup() *vfC11World {
 		x.users[n] = w.vfMakeUser(n, auth.LevelAuth, map[string]any{"fn": n})
 	}
 	x.users["rita"] = w.vfMakeUser("rita", auth.LevelRoot, nil)
+	x.users["fred"] = w.vfMakeUser("fred", auth.LevelAuth, map[string]any{"fn": "fred"})
 	tok := store.Store.GetAuthHandler("token")
 	mint := func(u *vfUser, life time.Duration, f auth.Feature) []byte {
 		b, _, err := tok.GenSecret(&auth.Rec{Uid: u.uid, AuthLevel: u.level, Lifetime: auth.Duration(life), Features: f})
@@ -165,6 +168,15 @@ func (x *vfC11World) request(op vfC11Op) string {
 			return fmt.Sprintf(`{"acc":{"id":"$ID","user":"new","scheme":"basic","secret":"%s","status":"susp","desc":{"public":{"fn":"x"}}},"extra":{"obo":"%s","authlevel":"root"}}`, vfB64([]byte("zed:zed12345")), x.self)
 		}
 		return fmt.Sprintf(`{"acc":{"id":"$ID","user":"new","scheme":"anon","login":%v,"desc":{"public":{"fn":"anon"}}}}`, op.Arg == "new-login")
+	case "admin":
+		switch op.Arg {
+		case "acc-other-auth":
+			return fmt.Sprintf(`{"acc":{"id":"$ID","user":"%s","scheme":"basic","secret":"%s"}}`, x.users["carol"].id(), vfB64([]byte("carol:hijacked1")))
+		case "acc-self-susp":
+			return fmt.Sprintf(`{"acc":{"id":"$ID","user":"%s","status":"susp"}}`, x.self)
+		case "del-other-user":
+			return fmt.Sprintf(`{"del":{"id":"$ID","what":"user","user":"%s","hard":true}}`, x.users["fred"].id())
+		}
 	case "note":
 		if op.Arg == "grp" {
 			return fmt.Sprintf(`{"note":{"topic":"%s","what":"kp"}}`, x.grp)
@@ -208,6 +220,14 @@ func vfC11Exec(hist []int, last bool) vfXResult {
 		isLast := i == len(hist)-1
 		preMsgs := len(x.w.db.Messages(x.grp))
 		preUsers := len(x.w.db.Users())
+		preAuth := x.w.db.DumpTables(true, "auth")
+		preFred := x.w.db.User(x.users["fred"].uid) != nil
+		preSelfState := ""
+		if u, okU := x.users[m.User]; okU {
+			if ur := x.w.db.User(u.uid); ur != nil {
+				preSelfState = fmt.Sprint(ur.State)
+			}
+		}
 		x.self = ""
 		if u, okU := x.users[m.User]; okU {
 			x.self = u.id()
@@ -348,6 +368,28 @@ func vfC11Exec(hist []int, last bool) vfXResult {
 					m.User, m.Lvl = fmt.Sprintf("new%d", newUsers), auth.LevelAnon
 				}
 			}
+		case "admin":
+			// only root acts on other accounts or changes an account's state
+			isRoot := m.Hi && m.User != "" && m.Lvl == auth.LevelRoot
+			authDump := x.w.db.DumpTables(true, "auth")
+			fredThere := x.w.db.User(x.users["fred"].uid) != nil
+			selfState := ""
+			if u, okU := x.users[m.User]; okU {
+				if ur := x.w.db.User(u.uid); ur != nil {
+					selfState = fmt.Sprint(ur.State)
+				}
+			}
+			changed := authDump != preAuth || fredThere != preFred || selfState != preSelfState
+			switch {
+			case !m.Hi || m.User == "":
+				if !refused || changed {
+					bad("C11:request-before-auth:"+op.Arg, fmt.Sprintf("%s answered %d (changed=%v) before login", op.Name, code, changed))
+				}
+			case !isRoot:
+				if !refused || changed {
+					bad("C11:account-administration-by-non-root:"+op.Arg, fmt.Sprintf("%s by %s (level %s) answered %d, store changed=%v", op.Name, m.User, m.Lvl, code, changed))
+				}
+			}
 		case "note":
 			if !m.Hi || m.User == "" {
 				if len(frames) > 0 {
@@ -435,6 +477,22 @@ func vfC11Exec(hist []int, last bool) vfXResult {
 			res.Outcome = fmt.Sprintf("%s:%d", op.Kind, code/100)
 			res.Obs = fmt.Sprintf("%d", code)
 		}
+		// the server may end the session itself (root suspended its own account: all its sessions are
+		// evicted): nothing more can be asked on this connection
+		dead := c.ended
+		if sx := c.session(); sx != nil && !dead {
+			sx.lock.Lock()
+			dead = sx.grpcnode == nil
+			sx.lock.Unlock()
+		}
+		if dead {
+			if !isLast {
+				vsched.Fail("harness", "history continues on a connection which the server has ended")
+			}
+			res.Terminal = true
+			res.Key = fmt.Sprintf("connection ended by the server after %s (%d)", op.Name, code)
+			return res
+		}
 	}
 	att := ""
 	if s := c.session(); s != nil {
@@ -462,7 +520,12 @@ func vfC11Exec(hist []int, last bool) vfXResult {
 			}
 		}
 	}
-	res.Key = fmt.Sprintf("%+v att=%s msgs=%d users=%d lasttoken=%s/%v", m, att, len(x.w.db.Messages(x.grp)), len(x.w.db.Users()), x.lastFrom, x.lastNeedsValidation)
+	ritaState := ""
+	if ur := x.w.db.User(x.users["rita"].uid); ur != nil {
+		ritaState = fmt.Sprint(ur.State)
+	}
+	res.Key = fmt.Sprintf("%+v att=%s msgs=%d users=%d lasttoken=%s/%v fred=%v carolpw=%v rita=%s", m, att, len(x.w.db.Messages(x.grp)), len(x.w.db.Users()), x.lastFrom, x.lastNeedsValidation,
+		x.w.db.User(x.users["fred"].uid) != nil, vfC12PasswordIs("carol", "hijacked1"), ritaState)
 	return res
 }
 
